@@ -2166,7 +2166,7 @@ impl ProtocolState {
             return *maximum_packet_size;
         }
 
-        MAXIMUM_VARIABLE_LENGTH_INTEGER as u32
+        MAXIMUM_PACKET_SIZE
     }
 
     fn get_queue(&mut self, queue_type: ProtocolQueueType) -> &mut VecDeque<u64> {
